@@ -109,6 +109,10 @@ def run(chk, prog):
             ok = got.get("const") == ("attr", V, "val") and got.get("other") == V
             exp = "Const -> v.val; else v"
         kws = [k for n in ast.walk(fn) if isinstance(n, ast.Call) and ast.unparse(n.func).endswith("tree_map") for k in n.keywords if k.arg == "is_leaf"]
-        okl = len(kws) == 1 and "Const" in ast.unparse(kws[0].value)
+        def _only_const(lam):
+            # is_leaf must stop at Const nodes ONLY: stopping at containers (tuple, list, dict) would wrap / pass a whole container, traced members included, as one leaf
+            b = lam.body if isinstance(lam, ast.Lambda) else None
+            return isinstance(b, ast.Call) and ast.unparse(b.func) == "isinstance" and len(b.args) == 2 and isinstance(b.args[1], ast.Name) and b.args[1].id == "Const"
+        okl = len(kws) == 1 and _only_const(kws[0].value)
         chk.require(ok and okl, "PYTREE-FIELDS", f"Pytree.{meth}", exp, derived={k: show(v) for k, v in got.items()}.__str__(), expected=exp + " (is_leaf on Const)", where=W(Pc, meth))
     chk.explanation = "sibling agreement of the Diff tree helpers and the static/dynamic field metadata of the Pytree utilities"
